@@ -145,8 +145,73 @@ struct checker {
                     ++n_pix;
                     if (!(got == want)) vh::viol(key("ccv-value"), vh::cat("word=", m.word(), " color_converted(", x, ",", y, ")=", (int)got[0], " expected ", (int)want[0]));
                 }
+        second_level_all(d, m, std::integral_constant<bool, (ORG == 1 || ORG == 2 || ORG == 9)>());
     }
+    // 8-bit rgb organisations: channel views and converting views as the INNER letter of a word
+    template <class W> void second_level_all(W const& d, mapping const& m, std::true_type) {
+        if (m.steps.size() > 1) return;
+        typedef typename W::reference R;
+        const int nc = pt::nch<R>::value;
+        for (int k = 0; k < nc; ++k) {
+            // (a) nth_channel_view of a memory-based view, then a transformation
+            auto cv = gil::nth_channel_view(d, k);
+            second_level(cv, m, "nth-then", [&](long sx, long sy) { return (long)pt::get_pix(s.src(sx, sy)).ch[k]; });
+            // (b) nth_channel_view of a colour-converting view (dereference adaptor carrying the channel index)
+            auto conv = gil::color_converted_view<gil::rgb16_pixel_t>(d);
+            auto cc = gil::nth_channel_view(conv, k);
+            second_level(cc, m, "ccv-nth-then", [&](long sx, long sy) { gil::rgb16_pixel_t p; gil::color_convert(s.src(sx, sy), p); return (long)p[k]; });
+        }
+        // (c) a stateful user converter
+        offset_cc occ = {37 + (int)(m.w * 3 + m.h)};
+        auto ov = gil::color_converted_view<gil::gray8_pixel_t>(d, occ);
+        second_level(ov, m, "ccv-stateful-then", [&](long sx, long sy) { return (long)(uint8_t)((int)gil::get_color(s.src(sx, sy), gil::red_t()) + occ.offset); });
+    }
+    template <class W> void second_level_all(W const&, mapping const&, std::false_type) {}
     template <class W> void channels(W const&, mapping const&, std::false_type) {}
+
+    // transformations applied AFTER a channel view / a colour-converting (dereference adaptor) view:
+    // the second-level view must still address channel k / convert with the caller's converter
+    struct offset_cc {          // stateful converter: gray = red + offset (mod 256)
+        int offset;
+        template <class S, class D> void operator()(S const& src, D& dst) const { gil::get_color(dst, gil::gray_color_t()) = (uint8_t)((int)gil::get_color(src, gil::red_t()) + offset); }
+    };
+    template <class CV, class F> void second_level(CV const& cv, mapping const& m, const char* what, F expect) {
+        if (cv.width() != m.w || cv.height() != m.h) return;
+        static const int ops2[] = {OP_FLIPLR, OP_FLIPUD, OP_TRANSPOSE, OP_ROT90CW, OP_ROT180, OP_SS21, OP_SS23, OP_SUBIMAGE};
+        for (int op : ops2) {
+            mapping m2(m.w, m.h); m2.push(op);
+            auto chk = [&](decltype(gil::subsampled_view(cv, 1, 1)) const& d2) {
+                if (d2.width() != m2.w || d2.height() != m2.h) { vh::viol(key(what), vh::cat("word=", m.word(), ".", what, ".", op_name(op), " dims")); return; }
+                for (long y = 0; y < m2.h; ++y) for (long x = 0; x < m2.w; ++x) {
+                    long cx, cy; m2.map(x, y, cx, cy);         // position in the channel/converted view
+                    long sx, sy; m.map(cx, cy, sx, sy);         // position in the source image
+                    ++n_pix;
+                    long got = (long)d2(x, y)[0], want = expect(sx, sy);
+                    if (got != want) { vh::viol(key(what), vh::cat("word=", m.word(), ".", what, ".", op_name(op), " (", x, ",", y, ") reads ", got, " expected ", want, " (source ", sx, ",", sy, ")")); return; }
+                }
+            };
+            long x0, y0, sw, sh;
+            switch (op) {
+            case OP_FLIPLR: chk(gil::subsampled_view(gil::flipped_left_right_view(cv), 1, 1)); break;
+            case OP_FLIPUD: chk(gil::subsampled_view(gil::flipped_up_down_view(cv), 1, 1)); break;
+            case OP_ROT180: chk(gil::rotated180_view(cv)); break;
+            case OP_SS21: chk(gil::subsampled_view(cv, 2, 1)); break;
+            case OP_SS23: chk(gil::subsampled_view(cv, 2, 3)); break;
+            case OP_SUBIMAGE: sub_params(cv.width(), cv.height(), x0, y0, sw, sh); chk(gil::subsampled_view(gil::subimage_view(cv, x0, y0, sw, sh), 1, 1)); break;
+            default: break;      // transposing letters change the static type: checked below
+            }
+        }
+        {   mapping m2(m.w, m.h); m2.push(OP_TRANSPOSE);
+            auto t = gil::transposed_view(cv);
+            if (t.width() == m2.w && t.height() == m2.h)
+                for (long y = 0; y < m2.h; ++y) for (long x = 0; x < m2.w; ++x) { long cx, cy, sx, sy; m2.map(x, y, cx, cy); m.map(cx, cy, sx, sy); ++n_pix;
+                    if ((long)t(x, y)[0] != expect(sx, sy)) { vh::viol(key(what), vh::cat("word=", m.word(), ".", what, ".transposed (", x, ",", y, ")")); break; } } }
+        {   mapping m2(m.w, m.h); m2.push(OP_ROT90CW);
+            auto t = gil::rotated90cw_view(cv);
+            if (t.width() == m2.w && t.height() == m2.h)
+                for (long y = 0; y < m2.h; ++y) for (long x = 0; x < m2.w; ++x) { long cx, cy, sx, sy; m2.map(x, y, cx, cy); m.map(cx, cy, sx, sy); ++n_pix;
+                    if ((long)t(x, y)[0] != expect(sx, sy)) { vh::viol(key(what), vh::cat("word=", m.word(), ".", what, ".rot90cw (", x, ",", y, ")")); break; } } }
+    }
 
     template <int K, class W> void kth_on_derived(W const& d, mapping const& m) {
         auto cv = gil::kth_channel_view<K>(d);
